@@ -1,8 +1,8 @@
 #!/bin/sh
 # Apply each behaviour-preserving change under benign/ and run the relevant quick checks: all must stay silent.
-for d in /verif/benign/b*; do
+for d in /verif/benign/${BENIGN_GLOB:-b*}; do
   k=$(basename $d | cut -c2)
-  case $k in 1) props="C01 C02 C03 C04 C05 C18";; 2) props="C06 C07 C08 C13 C15 C03 C10";; *) props="C09 C10 C11 C12 C14 C03";; esac
+  case $k in 1) props="C01 C02 C03 C04 C05 C18";; 2) props="C06 C07 C08 C13 C15 C03 C10";; 4) props="C01 C02 C03 C04 C05 C18 C06 C07 C08 C10";; 5) props="C09 C10 C11 C12 C13 C14 C03 C01";; *) props="C09 C10 C11 C12 C14 C03";; esac
   git -C /repo apply $d/patch.diff 2>/dev/null || git -C /repo apply -3 $d/patch.diff 2>/dev/null || { echo "$d: patch does not apply"; git -C /repo checkout -- .; continue; }
   git -C /repo reset -q
   for p in $props; do
